@@ -290,7 +290,10 @@ class C18(Check):
         ops = ['hex -'] + ['hex %02x' % b for b in range(256)]
         for _ in range(400 if thorough else 80):
             ops.append('hex ' + hexs(bytes(rng.randrange(256) for _ in range(rng.randrange(0, 40)))))
-        out.append(Stream('hex', chunk(ops, 64), note='every single byte; random byte strings'))
+        for n in (63, 64, 65, 300, 5000):                  # beyond any small-buffer / block-size threshold a rewrite might introduce
+            ops.append('hex ' + hexs(bytes(rng.randrange(256) for _ in range(n))))
+            ops.append('hex ' + hexs(bytes((i * 37 + n) & 0xff for i in range(n))))
+        out.append(Stream('hex', chunk(ops, 64), note='every single byte; random byte strings up to 40 bytes; 63, 64, 65, 300 and 5000 bytes'))
 
         # -- base64: exhaustive short strings over a small alphabet ---------------------------------
         low = [0x41, 0x51, 0x66, 0x7a, 0x2f, 0x2b, 0x39, 0x3d, 0x7b, 0x00]      # A Q f z / + 9 = { NUL
